@@ -236,6 +236,7 @@ func c14Cell(res *c14Result, snap *slog.VerifRegistry, cal [][]c14site, kind, fo
 		switch api {
 		case "SetSkip":
 			x.l.SetSkip(skip)
+		case "SetSkipLate": // set after the log/slog handler and the std-log bridge exist (below)
 		case "WithSkip":
 			e = x.l.WithSkip(skip)
 			x.l = e
@@ -271,6 +272,9 @@ func c14Cell(res *c14Result, snap *slog.VerifRegistry, cal [][]c14site, kind, fo
 	if kind != "default" {
 		x.sl = logslog.New(slog.NewSlogHandler(x.l, &slog.HandlerOptions{NoColor: format != "color", JSON: format == "json", Level: slog.AlwaysLevel}))
 		x.ll = slog.NewLogLogger(x.l, c14BridgeLevel)
+	}
+	if api == "SetSkipLate" {
+		x.l.SetSkip(skip)
 	}
 	for _, c := range c14calls {
 		if (kind == "default") != (c.Recv == "pkg") {
@@ -365,9 +369,9 @@ func c14Grid(build, tier string, only *c14Case) *c14Result {
 	res.Inlined = c14Inlined
 	for _, kind := range c14Kinds {
 		for _, format := range c14Formats {
-			for _, api := range []string{"none", "SetSkip", "WithSkip", "WithSkipSiblings"} {
+			for _, api := range []string{"none", "SetSkip", "SetSkipLate", "WithSkip", "WithSkipSiblings"} {
 				for skip := 0; skip <= c14MaxDepth; skip++ {
-					if api == "none" && skip > 0 {
+					if (api == "none" && skip > 0) || (api == "SetSkipLate" && kind == "default") {
 						continue
 					}
 					if only != nil && (only.Kind != kind || only.Format != format || only.API != api || only.Skip != skip) {
@@ -507,7 +511,7 @@ func c14Register(r *Run, results []*c14Result) {
 
 func runC14(r *Run) {
 	c14Header(r)
-	r.Rule = "finite grid, fully enumerated: every public entry point called directly (Entry methods through a static *Entry receiver and through the slog.Logger interface, package-level functions, log/slog adapter Info/Debug/Warn/Error/Log, std log bridge Println/Printf/Print) x 3 formats x skip 0..4 given by SetSkip, by WithSkip and by WithSkip on a parent that hands out a logger for every depth 0..4 (plus no skip call), every statement executed three times (plain attribute; an errors.v3 error value carrying its own stack; plain again) under a wrapper chain of matching depth (thorough: every depth skip..4) x {root, child, default logger} x {normal build, -gcflags=all=-l}; non-trivial = skip > 0 or not an Entry method; distinct by (entry point, format, skip, logger kind, build, position in the statement's history)"
+	r.Rule = "finite grid, fully enumerated: every public entry point called directly (Entry methods through a static *Entry receiver and through the slog.Logger interface, package-level functions, log/slog adapter Info/Debug/Warn/Error/Log, std log bridge Println/Printf/Print) x 3 formats x skip 0..4 given by SetSkip (before and after the adapters are made), by WithSkip and by WithSkip on a parent that hands out a logger for every depth 0..4 (plus no skip call), every statement executed three times (plain attribute; an errors.v3 error value carrying its own stack; plain again) under a wrapper chain of matching depth (thorough: every depth skip..4) x {root, child, default logger} x {normal build, -gcflags=all=-l}; non-trivial = skip > 0 or not an Entry method; distinct by (entry point, format, skip, logger kind, build, position in the statement's history)"
 	inl := c14Grid("inline", r.Tier, nil)
 	noinl := c14RunNoinline(r, nil)
 	// the positions of the wrappers' call statements must not depend on the build
